@@ -20,7 +20,7 @@ RULE = ("(a) wsvg round trips: lists of 1-6 paths (any segment mix, several subp
         "each equal to the original under the absolute d-string round-trip relation (through the group transforms for "
         "Document/SaxDocument), supplied attributes among those returned. Non-trivial = >= 2 paths with >= 1 attribute each, or "
         "a history with an add after a query and a reload; distinct by case hash.")
-ASSUMPTIONS = ["attribute values avoid XML-significant characters and whitespace that XML attribute normalisation may change",
+ASSUMPTIONS = ["Document.add_path is given string attribute values (ElementTree serialises strings only); wsvg also real numbers", "a style attribute only sets properties that no other supplied attribute sets (SaxDocument merges style over attributes, as CSS precedence has it)", "attribute values avoid XML-significant characters and whitespace that XML attribute normalisation may change",
                "arcs that had been auto-enlarged may differ in radius by 1e-12 relative after the round trip (C01)",
                "files are written under a fresh temporary directory that the check removes"]
 CONFIGS = ['scipy']
@@ -42,16 +42,17 @@ def path_specs_s(draw):
 
 
 @st.composite
-def attrs_s(draw, uid):
+def attrs_s(draw, uid, strings_only=False):
     keys = draw(st.lists(st.sampled_from(ATTR_KEYS), min_size=0, max_size=4, unique=True))
     d = {}
     for k in keys:
         if k == 'id':
             d[k] = 'p%d_%s' % (uid, draw(name_s))
         elif k == 'style':
-            d[k] = 'stroke:%s;fill:none' % draw(st.sampled_from(['red', '#00ff00', 'blue']))
+            d[k] = 'stroke-linejoin:%s;stroke-miterlimit:4' % draw(st.sampled_from(['round', 'bevel', 'miter']))   # (properties no attribute of the pool also sets)
         elif k in ('stroke-width', 'opacity', 'fill-opacity'):
-            d[k] = draw(st.sampled_from(['1', '0.5', '2.25', '3']))
+            # strings and real numbers (zero included): wsvg accepts both
+            d[k] = draw(st.sampled_from(['1', '0.5', '2.25', '3'] + ([] if strings_only else [0, 1, 0.5, 0.0, 2])))
         else:
             d[k] = draw(val_s)
     return d
@@ -66,10 +67,11 @@ def wsvg_case(draw):
     sva = None
     if draw(st.booleans()):
         sva = {}
-        for k in draw(st.lists(st.sampled_from(['width', 'height', 'viewBox', 'preserveAspectRatio']), min_size=1, max_size=4, unique=True)):
+        for k in draw(st.lists(st.sampled_from(['width', 'height', 'viewBox', 'preserveAspectRatio', 'id', 'stroke', 'class']), min_size=1, max_size=5, unique=True)):
             sva[k] = {'width': draw(st.sampled_from(['100', '50%', '12cm', '640px'])), 'height': draw(st.sampled_from(['100', '75%', '8cm'])),
                       'viewBox': draw(st.sampled_from(['0 0 100 100', '-10 -10 20 20', '0 0 640 480'])),
-                      'preserveAspectRatio': draw(st.sampled_from(['xMidYMid meet', 'none', 'xMinYMax slice']))}[k]
+                      'preserveAspectRatio': draw(st.sampled_from(['xMidYMid meet', 'none', 'xMinYMax slice'])),
+                      'id': 'drawing', 'stroke': 'blue', 'class': 'sheet'}[k]
     sub = draw(st.lists(name_s, min_size=0, max_size=2))
     return {'kind': 'wsvg', 'paths': paths, 'attrs': attrs, 'svg_attrs': sva, 'subdirs': sub, 'fname': draw(name_s) + '.svg'}
 
@@ -88,11 +90,11 @@ def history_case(draw):
                                                 ['matrix', 1.0, 0.5, 0.0, 1.0, 2.0, 0.0]]), min_size=0, max_size=2))
             ops.append([k, 'g%d' % uid[0], tf, draw(st.integers(0, 5))])
         elif k == 'add_path_root':
-            ops.append([k, draw(path_specs_s()), draw(attrs_s(uid[0]))])
+            ops.append([k, draw(path_specs_s()), draw(attrs_s(uid[0], True))])
         elif k == 'add_path_group':
-            ops.append([k, draw(path_specs_s()), draw(attrs_s(uid[0])), draw(st.integers(0, 5))])
+            ops.append([k, draw(path_specs_s()), draw(attrs_s(uid[0], True)), draw(st.integers(0, 5))])
         elif k == 'add_path_names':
-            ops.append([k, draw(path_specs_s()), draw(attrs_s(uid[0])), draw(st.lists(st.sampled_from(['layer1', 'layer2', 'inner', 'deep']), min_size=1, max_size=3))])
+            ops.append([k, draw(path_specs_s()), draw(attrs_s(uid[0], True)), draw(st.lists(st.sampled_from(['layer1', 'layer2', 'inner', 'deep']), min_size=1, max_size=3))])
         else:
             ops.append([k])
     ops.append(['reload'])
@@ -137,9 +139,20 @@ def same_path(ctx, where, orig, got, M=None):
                           '%s: point at t=%r is %r, expected %r' % (where, t, have, want))
 
 
+def attr_equal(v, r):
+    if r is None:
+        return False
+    if isinstance(v, str):
+        return r == v
+    try:                      # numbers are written as text: the value must be unchanged
+        return float(r) == float(v)
+    except (TypeError, ValueError):
+        return False
+
+
 def attrs_subset(ctx, where, supplied, returned):
     for k, v in (supplied or {}).items():
-        ctx.check(k in returned and returned[k] == v, where + '/attribute_lost',
+        ctx.check(attr_equal(v, returned.get(k)), where + '/attribute_lost',
                   '%s: supplied attribute %s=%r came back as %r' % (where, k, v, returned.get(k)))
 
 
@@ -206,6 +219,10 @@ def check_wsvg(case, ctx, tmp):
     ctx.check(len(sps) == len(paths), 'SaxDocument/count', 'wrote %d paths, SaxDocument read %d' % (len(paths), len(sps)))
     for a, b in zip(paths, sps):
         same_path(ctx, 'SaxDocument', a, b)
+    if attrs is not None and len(sax.tree) == len(paths):
+        for i in range(len(paths)):
+            # SaxDocument keeps one dictionary per element (inherited values overridden by the element's own attributes)
+            attrs_subset(ctx, 'SaxDocument', attrs[i], sax.tree[i])
 
 
 def check_history(case, ctx, tmp):
@@ -250,7 +267,7 @@ def check_history(case, ctx, tmp):
                     ok = False
                 if ok:
                     el = g.element
-                    attrs_ok = el is None or all(el.attrib.get(kk) == vv for kk, vv in m['attrs'].items())
+                    attrs_ok = el is None or all(attr_equal(vv, el.attrib.get(kk)) for kk, vv in m['attrs'].items())
                     if attrs_ok:
                         hit = i
                         break
@@ -316,7 +333,7 @@ def check_history(case, ctx, tmp):
                         continue
                     if all(type(a) is type(b) and a.start == b.start and a.end == b.end and abs(complex(a.point(0.5)) - complex(b.point(0.5))) <= 1e-9 * (1 + abs(complex(a.point(0.5))))
                            for a, b in zip(m['path'], g)):
-                        if all(ats[i].get(kk) == vv for kk, vv in m['attrs'].items()):
+                        if all(attr_equal(vv, ats[i].get(kk)) for kk, vv in m['attrs'].items()):
                             hit = i
                             break
                         if hit is None:
